@@ -12,12 +12,15 @@ import (
 	"runtime"
 	"sort"
 	"sync"
+	"sync/atomic"
 
+	"github.com/cosmos/cosmos-proto/anyutil"
 	"github.com/cosmos/cosmos-proto/zzverif/proj"
 	"github.com/cosmos/cosmos-proto/zzverif/val"
 	"google.golang.org/protobuf/encoding/protojson"
 	"google.golang.org/protobuf/proto"
 	"google.golang.org/protobuf/reflect/protoreflect"
+	"google.golang.org/protobuf/types/dynamicpb"
 )
 
 var _ protoreflect.ProtoMessage
@@ -79,7 +82,39 @@ var readOps = map[string]func(m proto.Message, other proto.Message) string{
 	"Project": func(m, _ proto.Message) string { b, _ := json.Marshal(proj.Project(m.ProtoReflect(), proj.WrapNone)); return hashOf(b) },
 	// fmt.Sprint(m) exercises String(); its text is deliberately unstable, so only completion counts
 	"String": func(m, _ proto.Message) string { _ = fmt.Sprint(m); return "ok" },
+	// the bytes Marshal returns belong to the caller: each goroutine appends its own trailer to its
+	// own result (frame writers do) and must find both parts intact afterwards
+	"MarshalThenAppend": func(m, _ proto.Message) string {
+		b, _ := proto.Marshal(m)
+		n := len(b)
+		h := hashOf(b)
+		tag := byte(trailerSeq.Add(1))
+		for i := 0; i < 24; i++ {
+			b = append(b, tag)
+		}
+		runtime.Gosched()
+		for _, x := range b[n:] {
+			if x != tag {
+				return "trailer overwritten"
+			}
+		}
+		return fmt.Sprint(hashOf(b[:n]) == h)
+	},
+	// packing a shared message into an Any only reads it
+	"AnyPack": func(m, _ proto.Message) string {
+		a, err := anyutil.New(m)
+		if err != nil {
+			return "err"
+		}
+		var chk proto.Message = m.ProtoReflect().New().Interface()
+		if proto.Unmarshal(a.Value, chk) != nil || !proto.Equal(chk, m) {
+			return "packed value differs from the message"
+		}
+		return a.TypeUrl
+	},
 }
+
+var trailerSeq atomic.Int32
 
 // cmdReaders: goroutines released from one barrier, no synchronisation between them afterwards,
 // each performing read-only operations on one shared message. Built with -race.
@@ -109,6 +144,17 @@ func cmdReaders(args []string) {
 		d := g.Dynamic(md)
 		shared := mt.New().Interface()
 		proj.Fill(proj.Impl(shared), proj.Project(d.ProtoReflect(), proj.WrapNone), proj.WrapImpl)
+		if i%4 == 2 {
+			// a message holding nothing but unknown fields (decoded from a newer schema)
+			var u []byte
+			for k := 0; k < 3; k++ {
+				u = append(u, g.UnknownRecord(md, 0)...)
+			}
+			d = dynamicpbNew(md)
+			d.SetUnknown(u)
+			shared = mt.New().Interface()
+			shared.ProtoReflect().SetUnknown(append([]byte(nil), u...))
+		}
 		if i%2 == 1 {
 			// nil map values / list elements: an extra empty element in every message-valued map and
 			// message list of the reference twin, the same element as a nil pointer in the struct
@@ -188,6 +234,8 @@ func cmdReaders(args []string) {
 	w.Write(b)
 	w.WriteByte('\n')
 }
+
+func dynamicpbNew(md protoreflect.MessageDescriptor) *dynamicpb.Message { return dynamicpb.NewMessage(md) }
 
 // addNilEntries adds one element to every message list and message-valued map of the top-level
 // message: an empty message in the dynamic twin d, a nil pointer in the generated struct p.
